@@ -417,7 +417,7 @@ func c06Same(w *run.Worker, params map[string]string, with, without, law string)
 func c06Main(r *run.Runner) {
 	r.Rule = "every let sequence (1..k bindings over names n, m, true, na with shadowing and chains) x every value shape (13 closed shapes incl. signed, compound, call, in, earlier binding, parameter) x 5 parameter maps x 35 use sites (every operand position, row counts, sort/summarize/extend, join conditions, nested right-hand sides) is compiled; " +
 		"the SQL expression at the use site is evaluated over all valuations of columns and parameter placeholders and compared with a reference interpreter that applies lexical scoping to the generator's tree; plus text laws: unused bindings, lets after the query and non-use sites (quoted, qualified, function, table, alias names) leave the output byte-identical; " +
-		"non-trivial = compiled and reached the comparison; distinct by construction"
+		"plus wide sequences: chains, independent bindings, shadowing chains of k lets and maps of k parameters (k in 1..65, thorough ..257) with the identifier used at one-hot positions; non-trivial = compiled and reached the comparison; distinct by construction"
 	r.Assume = []string{"parameter snippets are atomic SQL placeholders", "a bare bound name directly after `on` is not generated (bare-name rewrite vs binding is unspecified)"}
 	k := 2
 	if r.Thorough() {
